@@ -86,7 +86,9 @@ TypeLike(id) == IsUp(id[1][1])
 (* scopes ---------------------------------------------------------------------------------------- *)
 \* the scenario kinds: which two entities are put into which scope
 Kinds == {"class_class", "class_abstract", "class_enum", "enum_enum", "class_cprim", "prop_prop", "prop_inherited",
-          "prop_method", "method_method", "lit_lit", "const_const", "fn_fn", "lit_other_enum"}
+          "prop_method", "method_method", "lit_lit", "const_const", "fn_fn", "lit_other_enum",
+          \* members that meet only in a common descendant: inherited from two unrelated parents / grandparents
+          "prop_two_parents", "prop_method_two_parents", "prop_two_grandparents"}
 \* (arguments of functions are not among the entities the sentence lists, so no scenario is built for them)
 NeedsTypeLike(k) == k \in {"class_class", "class_abstract", "class_enum", "enum_enum", "class_cprim", "lit_lit", "const_const", "lit_other_enum"}
 \* two entities of the scenario share a scope of the generated code; "lit_other_enum" is the control scenario in which
